@@ -192,10 +192,13 @@ ScalarOut(reg, c, u, form) ==
                       IF q.k # "ok" THEN Exc(q.k) ELSE Out("ok", <<q.c, q.u, q.qt>>, "", cv.x, ValidValue(reg, q, cv.x))
 
 \* ---- the reference outcome and effect of a call c = [op, a] -------------------------------------
-IsRegistration(op) == op \in {"AddUnit", "AddUnitBase", "AddCategory", "Clear"}
+IsRegistration(op) == op \in {"AddUnit", "AddUnitBase", "AddUnitBad", "AddCategory", "Clear"}
 Effect(reg, c) ==
   CASE c.op = "AddUnit"     -> RegAddUnit(reg, c.a.qt, c.a.u, FALSE, c.a.dc)
     [] c.op = "AddUnitBase" -> RegAddUnit(reg, c.a.qt, c.a.u, TRUE, NONE)
+    \* AddUnit with a conversion expression that is not one (a string without the %f / x placeholder): the expressions are compiled
+    \* before anything is looked up or touched, so the call is rejected (AssertionError) whatever the symbol, and leaves no trace
+    [] c.op = "AddUnitBad"  -> [out |-> Exc("ASSERT"), reg |-> reg]
     [] c.op = "AddCategory" -> RegAddCategory(reg, c.a)
     [] c.op = "Clear"       -> [out |-> Ok, reg |-> Reg0]
     [] c.op = "CheckCategoryUnit"     -> [out |-> IF ValidNow(reg, c.a.c, c.a.u) THEN Ok ELSE Exc("UNITS"), reg |-> reg]
@@ -205,6 +208,7 @@ Effect(reg, c) ==
     [] c.op = "GetDefaultValue" -> [out |-> IF c.a.c \in DOMAIN reg.cats THEN OkX(R(reg.cats[c.a.c].dv)) ELSE Exc("UNITS"), reg |-> reg]
     [] c.op = "GetBaseUnit"     -> [out |-> IF c.a.qt \in DOMAIN reg.order THEN OkT(reg.order[c.a.qt][1]) ELSE Exc("UNITS"), reg |-> reg]
     [] c.op = "GetUnits"        -> [out |-> IF c.a.qt \in DOMAIN reg.order THEN OkS(reg.order[c.a.qt]) ELSE Exc("UNITS"), reg |-> reg]
+    [] c.op = "CountUnits"      -> [out |-> OkX(R(Cardinality(DOMAIN reg.units))), reg |-> reg]     \* len(GetUnits()): all units of all types
     [] c.op = "GetQuantityType" -> [out |-> OkT(IF c.a.u \in DOMAIN reg.units THEN reg.units[c.a.u].qt ELSE ""), reg |-> reg]
     [] c.op = "GetDefaultCategory" -> [out |-> DefaultCategory(reg, c.a.u), reg |-> reg]
     [] c.op = "Convert"         -> [out |-> ConvertOut(reg, c.a.q, c.a.u, c.a.v, c.a.x), reg |-> reg]
